@@ -8,6 +8,7 @@ import RactorModel.Lemmas.PgConcHold
 import RactorModel.Lemmas.PgConcText
 import RactorModel.Lemmas.PgConcRead
 import RactorModel.Lemmas.PgConcLeaveStep
+import RactorModel.Lemmas.PgConcLeaveCongr
 import RactorModel.Model.PgText
 
 /-!
@@ -1039,6 +1040,49 @@ theorem conc_leave_iteration_moves_past_every_region (g : Conc.G) (k : Key) (x :
       Conc.GEq (Conc.step (Conc.withLeaveOne g k x) (.call i)) (Conc.withLeaveOne (Conc.step g (.call i)) k x)) :=
   ⟨fun a r h => Conc.step_ex_comm g k x a r h, fun i h => Conc.step_call_comm g k x i h⟩
 
+
+/-- **`Pg.Conc.step` depends on the reverse index through lookups only**: global states that agree on every lookup
+(and on everything else) stay so under every region of every thread, hence along every schedule. -/
+theorem conc_step_respects_lookups {g g' : Conc.G} (h : Conc.GEq g g') (ts : List Conc.Tid) :
+    Conc.GEq (Conc.run g ts) (Conc.run g' ts) := Conc.run_congr h ts
+
+/-- **The stepped entry region of `leave_scoped` IS the merged step of `Pg.Conc`** (`Lemmas/PgConcLeaveCongr.lean`).
+Thread `i` is at `leave_scoped(s, g, as)`; `pg.rs` holds the group entry and takes the relations lock of one actor of
+the call after the other; between two of these iterations ANY regions of other threads run (`segs` = the actors of
+the call in order, each followed by the regions that ran after its iteration: regions of exits — of the actors of
+the call too —, of joins holding other entries, of other leaves, monitors, demonitors; a region that needs the held
+entry is blocked, i.e. not there); then the forward part. If the interleaving is `SteppedMovable` (it contains no
+`take` / `finish` of the exit of an actor whose iteration is already done and no `remove_empty_actor_relations` of such
+an actor that is stopping — the residual cases (i), (ii) of `conc_leave_iterations_commute`) and the entry exists, then:
+the state after the forward part answers every lookup like the state after the SAME regions of the other threads
+followed by the ONE-step entry region (`leaveEntry`); the record (payload, recipients) is that step's record; phases,
+program counters, lock table, records and notifications of everybody else are the same. -/
+theorem conc_leave_stepped_is_merged (g : Conc.G) (s g' : Nat) (segs : List (Nat × List Conc.Tid))
+    (h : Conc.SteppedMovable g (s, g') segs)
+    (he : (get (Conc.run g (segs.flatMap (·.2))).st.map (s, g')).isSome) :
+    let as := segs.map (·.1)
+    let fine := Conc.runStepped g (s, g') segs
+    let coarse := Conc.run g (segs.flatMap (·.2))
+    Conc.SEq (Conc.leaveFwdSt fine.st (s, g') as) (leaveEntry coarse.st s g' as).1 ∧
+    (some (⟨false, s, g', as, recipients fine.st (s, g')⟩ : Pending)) = (leaveEntry coarse.st s g' as).2 ∧
+    fine.thr = coarse.thr ∧ fine.exits = coarse.exits ∧ fine.locks = coarse.locks ∧ fine.sent = coarse.sent ∧
+    fine.changes = coarse.changes :=
+  Conc.leave_stepped_is_merged g s g' segs h he
+
+/-- non-vacuity: `leave_scoped(1, 5, [1, 2])` stepped, with `mark` of actor 2's exit after the iteration for actor 1
+and `mark`, `demTake` of actor 1's OWN exit after the iteration for actor 2: movable, and the stepped result has the
+lookups of the merged step run after those three exit regions -/
+example :
+    let g := g0 [.join 1 5 [1, 2, 3], .monitor 5 9] [.leave 1 5 [1, 2]]
+    let segs : List (Nat × List Conc.Tid) := [(1, [.ex 2 .mark]), (2, [.ex 1 .mark, .ex 1 .demTake])]
+    Conc.SteppedMovable g (1, 5) segs ∧
+    (let fine := Conc.leaveFwdSt (Conc.runStepped g (1, 5) segs).st (1, 5) [1, 2]
+     let coarse := (Conc.step (Conc.run g [.ex 2 .mark, .ex 1 .mark, .ex 1 .demTake]) (.call 0)).st
+     membersOf fine (1, 5) = [3] ∧ fine.map = coarse.map ∧ fine.index = coarse.index ∧ fine.dead = coarse.dead ∧
+     ([1, 2, 3, 9].all fun a => get fine.rel a == get coarse.rel a) = true) := by
+  refine ⟨?_, by decide⟩
+  simp [Conc.SteppedMovable, Conc.Movable, Conc.movable1]
+
 /-- non-vacuity of the residual case (ii): actor 1 is stopping, its only reverse-index entry is its membership of
 (1,5): `remove_empty_actor_relations(1)` after the iteration removes the entry, before it leaves it behind empty -/
 example :
@@ -1110,3 +1154,5 @@ end C11
 #print axioms C11.conc_readers_linearizable
 #print axioms C11.conc_leave_iterations_commute
 #print axioms C11.conc_leave_iteration_moves_past_every_region
+#print axioms C11.conc_step_respects_lookups
+#print axioms C11.conc_leave_stepped_is_merged
